@@ -253,6 +253,36 @@ def refcell_borrow(M, st, fr, t, args, site):
     return NotImplemented
 
 
+def _cell_of(M, st, a):
+    """the virtual memory cell behind a &Cell<T> argument (named after the access path of the Cell), or None"""
+    v = deref_arg(M, st, a)
+    if v[0] == 'unk':
+        cr = M.crate_by_name(v[3])
+        ty = cr.types[v[1]]
+        inner = ty["args"][0] if ty["k"] == "adt" and ty.get("path") == "std::cell::Cell" and ty["args"] else None
+        if inner is not None:
+            return ('V', v[2] + ".value", inner, v[3])
+    return None
+
+
+@summary("std::cell::Cell::<T>::get")
+def cell_get(M, st, fr, t, args, site):
+    c = _cell_of(M, st, args[0])
+    if c is None:
+        return NotImplemented
+    return M.read(st, c, ())
+
+
+@summary("std::cell::Cell::<T>::set")
+def cell_set(M, st, fr, t, args, site):
+    c = _cell_of(M, st, args[0])
+    if c is None:
+        return NotImplemented
+    M.write(st, c, (), args[1])
+    st.events.append(('store', M.cell_name(c), M.describe(st, args[1]), site))
+    return ('agg', None, 0, ())
+
+
 # ------------------------------------------------------------------------------------------------ vectors / bytes
 def vec_value(segs, name=None):
     return ('vec', None, tuple(segs), None, name)
